@@ -15,18 +15,23 @@ KWIDE = (-2500, 2499)        # years -1 000 000 .. 999 999
 # ---------------------------------------------------------------------------
 # inputs
 # ---------------------------------------------------------------------------
-def year_input(eng, tag="", K=KWIDE):
+def year_input(eng, tag="", K=KWIDE, E=None):
     """y = 400K + 100c + 4q + s   (bijection with the integers in range).
-    Jobs may pin any of K/c/q/s through eng.pins."""
+    Jobs may pin any of K/c/q/s through eng.pins.  With E=(lo, hi) the year is
+    10000E + 400K + 100c + 4q + s (K in 0..24): the decimal split the dumper's
+    expanded-year properties make then stays linear."""
     k = eng.var("K" + tag, K[0], K[1])
     c = eng.var("c" + tag, 0, 3)
     q = eng.var("q" + tag, 0, 24)
     s = eng.var("s" + tag, 0, 3)
-    return k * 400 + c * 100 + q * 4 + s
+    y = k * 400 + c * 100 + q * 4 + s
+    if E is not None:
+        y = eng.var("E" + tag, E[0], E[1]) * 10000 + y
+    return y
 
 
 def year_value(vals, tag=""):
-    return (400 * vals["K" + tag] + 100 * vals["c" + tag] +
+    return (10000 * vals.get("E" + tag, 0) + 400 * vals["K" + tag] + 100 * vals["c" + tag] +
             4 * vals["q" + tag] + vals["s" + tag])
 
 
@@ -75,8 +80,8 @@ def raw_point(data, year, rep, f1, f2, h, mi, s, tzh, tzm, ned=0):
 
 
 def point_input(eng, data, tag, rep, K=KWIDE, tz=True, tod=True, tzh=(-99, 99),
-                tzm=(-59, 59), hmax=24):
-    y = year_input(eng, tag, K)
+                tzm=(-59, 59), hmax=24, E=None):
+    y = year_input(eng, tag, K, E)
     if rep == "cal":
         f1 = eng.var("M" + tag, 1, 12)
         f2 = eng.var("D" + tag, 1, 31)
